@@ -36,7 +36,8 @@ Inductive how :=
 | HPt (rmax : N)             (* point within [0, rmax]^2 *)
 | HPtX | HPtY                (* one coordinate of the point property *)
 | HIntv                      (* interval count or the keyword "log" *)
-| HAlign | HClip.
+| HAlign | HClip
+| HGrid.                     (* grid type of a graph: a character, else the number the property shows *)
 
 Definition lowers (n : bytes) : bytes := map lower n.
 Definition in_names (n : bytes) (l : list string) : bool := existsb (fun s => beq (lowers n) (bs s)) l.
@@ -77,7 +78,7 @@ Definition resolve_name (k : kind) (n : bytes) : option (bytes * how) :=
     else if ex ["bg"] || ci ["background"] then Some (bs "background", HCol)
     else if ex ["pos"] || ci ["position"] then Some (bs "pos", HPt F32_ONE)
     else if ci ["scale"] then Some (bs "scale", HPt F32_MAX)
-    else if ex ["type"] || ci ["grid"; "gridtype"] then Some (bs "grid", HNum NChr)
+    else if ex ["type"] || ci ["grid"; "gridtype"] then Some (bs "grid", HGrid)
     else if ex ["align"] || ci ["alignment"] then Some (bs "align", HAlign)
     else if ex ["clip"] || ci ["clipping"] then Some (bs "clip", HClip)
     else if ex ["lpos"] then Some (bs "lpos", HNum NChr)
@@ -226,6 +227,14 @@ Definition den_align (s : source) : den :=
     end
   end.
 
+(* grid type: the character a source denotes, else the number 0..255 it denotes (the property is shown as a number,
+   so that every value read can be assigned again) *)
+Definition den_grid (s : source) : den :=
+  match den_num NChr s with
+  | DRefuse => den_num NU8 s
+  | d => d
+  end.
+
 Definition pt_x (v : pval) : N := match v with PPt x _ => x | _ => 0%N end.
 Definition pt_y (v : pval) : N := match v with PPt _ y => y | _ => 0%N end.
 
@@ -250,6 +259,7 @@ Definition denote (h : how) (cur : option pval) (dflt : pval) (s : source) : den
   | HIntv => den_intv cur s
   | HAlign => den_align s
   | HClip => den_clip s
+  | HGrid => den_grid s
   end.
 
 Definition kind_of (o : anyobj) : kind :=
